@@ -137,15 +137,27 @@ Decode(b) == Item(b, 1)
 (* MappedValue(v): jsoncons documents a JSON-like image for v that this     *)
 (* module can state (doc/ref/cbor/cbor.md).  For the rest only the verdict  *)
 (* is compared (or nothing, where well-formed input may be refused).        *)
+TransparentTags == {0, 1, 21, 22, 23, 32, 33, 34} \cup (6..15)
+Transparent(tagbytes) == Len(StripZeros(tagbytes)) <= 1 /\ Num(tagbytes) \in TransparentTags      \* (a one-byte tag number; wider ones are never transparent)
 RECURSIVE Plain(_)
 Plain(v) ==   \* no construct whose jsoncons image is outside this module
   CASE v[1] = "arr" -> \A k \in 1..Len(v[2]) : Plain(v[2][k])
     [] v[1] = "map" -> /\ \A k \in 1..Len(v[2]) : v[2][k][1][1] = "tstr" /\ Plain(v[2][k][2])          \* text keys only
                        /\ \A k, m \in 1..Len(v[2]) : k # m => v[2][k][1] # v[2][m][1]                  \* no duplicate keys
-    [] v[1] = "tag" -> FALSE
+    [] v[1] = "tag" -> IF Transparent(v[2]) THEN Plain(v[3]) ELSE TRUE      \* (see Image)
     [] v[1] = "simple" -> FALSE
     [] v[1] = "nint" -> Len(v[2]) < 8 \/ v[2][1] < 128          \* -1-n fits int64
     [] OTHER -> TRUE
+(* A tag applies to exactly one data item (RFC 8949 3.4).  jsoncons maps the tags below onto a semantic tag of the value and leaves the  *)
+(* value itself as it is (cbor.md: date-time 0, epoch 1, base-N hints 21-23, URI 32, base64url / base64 text 33 / 34; unassigned 6-15 are *)
+(* ignored); every other tag may transform its content (bignums, decimal fractions, typed arrays, string references ...), whose image is  *)
+(* stated elsewhere (BinTags / C06), so the tagged item is "any" here - but its siblings keep their predicted image.                      *)
+RECURSIVE Image(_)
+Image(v) ==
+  CASE v[1] = "arr" -> <<"arr", [k \in 1..Len(v[2]) |-> Image(v[2][k])]>>
+    [] v[1] = "map" -> <<"map", [k \in 1..Len(v[2]) |-> <<v[2][k][1], Image(v[2][k][2])>>]>>
+    [] v[1] = "tag" -> IF Transparent(v[2]) THEN Image(v[3]) ELSE <<"any">>
+    [] OTHER -> v
 RECURSIVE HasSimple(_)
 HasSimple(v) ==  \* well-formed, but a decoder may refuse it: unassigned simple values, and negative integers below
                  \* -2^63 (no 64-bit native representation; jsoncons documents no mapping for them)
